@@ -96,12 +96,19 @@ class XyeEngine(Engine):
         scn = self._gen_one(rng, tier)
         if rng.random() < 0.1:
             scn["locale"] = "C"  # default text encoding of open() is strict ASCII
-        if scn["kind"] == "roundtrip" and rng.random() < 0.15:
-            other = self._gen_one(rng, tier)
+        if scn["kind"] == "roundtrip" and (i < 6 or rng.random() < 0.15) and scn["n"] <= 200:
+            if i < 6 or rng.random() < 0.5:
+                other = self._twin(scn, rng)
+            else:
+                other = self._gen_one(rng, tier)
             if other["kind"] == "roundtrip" and other["n"] <= 200:
                 other.update(sink="mem", faults={"mode": "none"}, fresh_process=False)
                 scn["interleave"] = {"frac": rng.random(), "other": other,
-                                     "where": rng.choice(["line", "write", "write"])}
+                                     "where": rng.choice(["line", "write", "write", "site"])}
+                if i < 6:
+                    # enumeration: every distinct line of xye.py and every write() of this save
+                    scn["interleave"] = {"sweep": True, "other": other}
+                    scn["faults"] = {"mode": "none"}
         if scn["kind"] == "roundtrip" and rng.random() < 0.35:
             # the same target is written again with other data (and loaded again)
             second = self._gen_one(rng, tier)
@@ -111,6 +118,16 @@ class XyeEngine(Engine):
                 second["faults"] = {"mode": "none"}
                 scn["second"] = second
         return scn
+
+    def _twin(self, scn, rng):
+        """Another caller saving the same kind of table: same rows, names and header, other numbers."""
+        t = copy.deepcopy({k: v for k, v in scn.items() if k not in ("interleave", "second")})
+        n = t["n"]
+        for key, kind in (("values", "val"), ("variances", "var")):
+            t[key] = {"seed": rng.randrange(1 << 32)} if isinstance(t[key], dict) else self._gvals(rng, n, kind)
+        for c in t["coords"].values():
+            c["vals"] = {"seed": rng.randrange(1 << 32)} if isinstance(c["vals"], dict) else self._gvals(rng, n, "val")
+        return t
 
     def _gen_one(self, rng, tier):
         r = rng.random()
@@ -485,52 +502,73 @@ class XyeEngine(Engine):
             else:
                 self._load_and_compare(scn, ctx, self._target(scn, ctx), "retry")
 
-    def _interleaved(self, scn, ctx):
-        """Two callers save two data sets to two targets; the second caller's whole save runs at
-        a scenario-chosen line boundary inside the first caller's save_xye."""
-        import scippneutron.io.xye as xye
-
-        a = dict(scn, sink="mem")
-        b = dict(scn["interleave"]["other"], sink="mem")
-        prefixes = (xye.__file__,)
-        at_write = scn["interleave"].get("where") == "write"
-        counter = seams.Preemptor(prefixes, {})
-        csink = seams.SimStringIO(ctx=ctx)
-        if counter.run(lambda: self._save(a, ctx, csink, label="save_counting_pass")) is not None:
-            return
-        total = csink.sim_writes if at_write else counter.ordinal
-        at = min(total - 1, int(scn["interleave"]["frac"] * total)) if total else 0
+    def _interleave_once(self, a, b, ctx, where, at, totals, prefixes, tag=""):
+        """Two callers save two data sets to two targets; the second caller's whole save runs while
+        the first is at one scheduling point of save_xye: a line boundary of xye.py (by event
+        ordinal or first execution of a distinct line) or inside one of its write() calls."""
+        kind = {"line": "preempt_in_save", "site": "preempt_at_source_line", "write": "preempt_in_write"}[where]
+        total = totals[where]
         tb = seams.SimStringIO(ctx=ctx)
         state = {}
-        kind = "preempt_in_write" if at_write else "preempt_in_save"
         ctx.fault_configured(kind)
 
         def cb(frame):
-            where = "write" if at_write else frame.f_code.co_name
-            ctx.log("preempt", where, at, total)
-            ctx.site("preempt@xye:" + where)
+            at_s = "write" if where == "write" else f"{frame.f_code.co_name}:{frame.f_lineno}"
+            ctx.log("preempt", at_s, where, at, total)
+            ctx.site("preempt@xye:" + ("write" if where == "write" else frame.f_code.co_name))
             state["exc"] = self._save(b, ctx, tb, label="save_other_caller")
             state["ran"] = True
+            state["at"] = at_s
 
-        if at_write:
+        if where == "write":
             # the first caller blocks in its at-th write(); the second caller's save runs meanwhile
             ta = seams.SimStringIO(ctx=ctx, yield_at={at: cb})
             ea = self._save(a, ctx, ta, label="save_preempted")
         else:
             ta = seams.SimStringIO(ctx=ctx)
-            ea = seams.Preemptor(prefixes, {at: cb}).run(lambda: self._save(a, ctx, ta, label="save_preempted"))
+            pre = seams.Preemptor(prefixes, {at: cb} if where == "line" else {},
+                                  site_points={at: cb} if where == "site" else None)
+            ea = pre.run(lambda: self._save(a, ctx, ta, label="save_preempted"))
         if not state.get("ran"):
             ctx.probe("preemption_point_not_reached")
             return
         ctx.fault_fired(kind)
         ctx.probe("two_saves_interleaved")
+        desc = f"{where} {at}/{total} = {state['at']}"
+        hint = {"il_where": where, "il_at": at}
+        n0 = len(ctx.violations)
         for who, e in (("pre-empted", ea), ("pre-empting", state.get("exc"))):
             if e is not None:
-                ctx.violate("save_raised", f"[interleaved at {at}/{total}] the {who} caller's save_xye raised {e}",
-                            kind="interleaved_save_raised", exc=e.name)
+                ctx.violate("save_raised", f"[interleaved{tag} at {desc}] the {who} caller's save_xye raised {e}",
+                            kind="interleaved_save_raised", exc=e.name, _hint=hint)
                 return
-        self._load_and_compare(a, ctx, ta, f"interleaved, pre-empted caller ({at}/{total})")
-        self._load_and_compare(b, ctx, tb, "interleaved, pre-empting caller")
+        self._load_and_compare(a, ctx, ta, f"interleaved{tag}, pre-empted caller ({desc})")
+        self._load_and_compare(b, ctx, tb, f"interleaved{tag}, pre-empting caller ({desc})")
+        for v in ctx.violations[n0:]:
+            v.setdefault("hint", {}).update(hint)
+
+    def _interleaved(self, scn, ctx):
+        import scippneutron.io.xye as xye
+
+        il = scn["interleave"]
+        a = dict(scn, sink="mem")
+        b = dict(il["other"], sink="mem")
+        prefixes = (xye.__file__,)
+        counter = seams.Preemptor(prefixes, {})
+        csink = seams.SimStringIO(ctx=ctx)
+        if counter.run(lambda: self._save(a, ctx, csink, label="save_counting_pass")) is not None:
+            return
+        totals = {"line": counter.ordinal, "site": len(counter.site_order), "write": csink.sim_writes}
+        if il.get("sweep"):
+            pts = [("site", k) for k in range(totals["site"])] + [("write", k) for k in range(totals["write"])]
+            for where, at in pts:
+                self._interleave_once(a, b, ctx, where, at, totals, prefixes, " sweep")
+            ctx.count("interleaving_points_enumerated", len(pts))
+            return
+        where = il.get("where", "line")
+        total = totals[where]
+        at = il["at"] if "at" in il else (min(total - 1, int(il["frac"] * total)) if total else 0)
+        self._interleave_once(a, b, ctx, where, at, totals, prefixes)
 
     def _unencodable_here(self, scn, ctx, exc, locale=None) -> bool:
         """In a process whose default text encoding is ASCII (scenario knob locale=C) a file
@@ -654,6 +692,11 @@ class XyeEngine(Engine):
         if s.get("fresh_process"):
             c = copy.deepcopy(s)
             c["fresh_process"] = False
+            yield c
+        if s.get("interleave") and "il_where" in hint and (
+                s["interleave"].get("sweep") or s["interleave"].get("at") != hint["il_at"]):
+            c = copy.deepcopy(s)
+            c["interleave"] = {"where": hint["il_where"], "at": hint["il_at"], "other": s["interleave"]["other"]}
             yield c
         if s.get("interleave"):
             c = copy.deepcopy(s)
